@@ -1,0 +1,94 @@
+//go:build verif
+
+// Machine-checked contracts for this package (guard: build tag `verif`; this file contains comments only).
+// Read by /verif/bin/govc: each `//@ unit` section is one verification unit (the functions matching `filter`,
+// verified against the contracts of the section; callees are used through their contracts only).
+
+package casket
+
+//@ unit execute_directives props=C09 filter=`casket\.executeDirectives$`
+//@ ghost lastDir int
+//@ spec idx(dirs []string, d string) int
+
+//@ define storOK() bool = storages != nil && forall(k, 0, len(sblocks), has(storages, k) ==> storages[k] != nil)
+//@ define inOuter() bool = 1 <= #i1 && #i1 <= len(directives) && lastDir <= #i1 - 1 && dir == directives[#i1 - 1]
+
+//@ func executeDirectives
+//@   requires lastDir == -1
+//@   modifies ghost:lastDir, MV:map[int]map[string]interface{}, MD:map[int]map[string]interface{}, MV:map[string]interface{}, MD:map[string]interface{}
+//@   requires forall(k, 0, len(directives), idx(directives, directives[k]) == k)
+//@   at call dynamic#1 assert [ordered] idx(directives, dir) >= lastDir
+//@   at call dynamic#1 do lastDir = idx(directives, dir)
+//@   loop 1 invariant 0 <= #i && #i <= len(directives) && lastDir <= #i - 1 && storOK()
+//@   loop 2 invariant inOuter() && storOK() && 0 <= #i2 && #i2 <= len(sblocks)
+//@   loop 3 invariant inOuter() && storOK() && 1 <= #i2 && #i2 <= len(sblocks) && has(storages, #i2 - 1) && i == #i2 - 1
+//@   loop 4 invariant inOuter() && storOK()
+
+//@ unit lifecycle props=C16 filter=`casket\.startWithListenerFds$|Instance\)\.ShutdownCallbacks$`
+//@ ghost nShutdown int
+//@ ghost nFinal int
+//@ ghost shutdownDone int
+
+//@ func (*Instance).ShutdownCallbacks
+//@   requires i != nil && nShutdown == 0 && nFinal == 0
+//@   at call dynamic#1 assert [shutdown_before_final] nFinal == 0
+//@   at call dynamic#1 do nShutdown = nShutdown + 1
+//@   at call dynamic#2 assert [all_shutdown_first] nShutdown == len(i.OnShutdown)
+//@   at call dynamic#2 do nFinal = nFinal + 1
+//@   ensures [each_once] nShutdown == len(i.OnShutdown) && nFinal == len(i.OnFinalShutdown)
+//@   loop 1 invariant 0 <= #i && #i <= len(i.OnShutdown) && nShutdown == #i && nFinal == 0
+//@   loop 2 invariant 0 <= #i && #i <= len(i.OnFinalShutdown) && nFinal == #i && nShutdown == len(i.OnShutdown)
+
+//@ ghost nFirst int
+//@ ghost nStartup int
+//@ ghost serversStarted int
+//@ func IsUpgrade
+//@   pure
+//@ func startServers
+//@   modifies ghost:serversStarted
+//@   ensures serversStarted == old(serversStarted) + 1
+//@ func ValidateAndExecuteDirectives
+//@   requires inst != nil
+
+//@ func startWithListenerFds
+//@   requires inst != nil && nFirst == 0 && nStartup == 0 && serversStarted == 0
+//@   at call dynamic#1 assert [first_only_on_fresh_start] restartFds == nil && !IsUpgrade()
+//@   at call dynamic#1 assert [first_before_startup] nStartup == 0 && serversStarted == 0
+//@   at call dynamic#1 do nFirst = nFirst + 1
+//@   at call dynamic#2 assert [startup_before_servers] serversStarted == 0
+//@   at call dynamic#2 do nStartup = nStartup + 1
+//@   at call startServers assert [all_startup_done] nStartup == len(inst.OnStartup)
+//@   ensures [success_means_started] result == nil ==> (serversStarted == 1 && nStartup == len(inst.OnStartup))
+//@   loop 1 invariant 0 <= #i && nFirst == #i && nStartup == 0 && serversStarted == 0
+//@   loop 2 invariant 0 <= #i && #i <= len(inst.OnStartup) && nStartup == #i && serversStarted == 0
+
+//@ unit start_servers props=C08 filter=`casket\.startServers$`
+//@ ghost opened int
+//@ func IsUpgrade
+//@   pure
+//@ extern invoke:(github.com/tmpim/casket.TCPServer).Listen
+//@   modifies ghost:opened
+//@   ensures (result1 == nil ==> opened == old(opened) + 1) && (result1 != nil ==> opened == old(opened))
+//@ extern invoke:(github.com/tmpim/casket.UDPServer).ListenPacket
+//@   modifies ghost:opened
+//@   ensures (result1 == nil ==> opened == old(opened) + 1) && (result1 != nil ==> opened == old(opened))
+//@ extern fmt.Errorf
+//@   ensures result != nil
+
+//@ func startServers
+//@   requires inst != nil && restartFds == nil && !IsUpgrade()
+//@   modifies ghost:opened, Instance.servers, E:ServerListener
+//@   // restricted to a fresh start (restartFds == nil, not an upgrade): the returns of the fd-inheritance branches are dead under it, by declaration
+//@   unreachable reachable_return#1
+//@   unreachable reachable_return#2
+//@   unreachable reachable_return#3
+//@   unreachable reachable_return#4
+//@   unreachable reachable_return#5
+//@   unreachable reachable_return#6
+//@   unreachable reachable_return#7
+//@   unreachable reachable_return#8
+//@   unreachable reachable_return#9
+//@   unreachable reachable_return#10
+//@   ensures [no_listener_leak] result != nil ==> opened == old(opened)
+//@   ensures [all_listening] result == nil ==> opened == old(opened) + 2*len(serverList)
+//@   loop 1 invariant 0 <= #i && #i <= len(serverList) && opened == old(opened) + 2*#i && inst != nil
